@@ -467,8 +467,17 @@ class LV:
             return False
         n, stride = q[2], q[3]
         # guarded by (n % stride) == 0
-        guard = ("cmp", "Eq", ("binop", "Mod", n, stride), ("const", 0))
-        if not any(e.k == "decision" and e.test == guard and e.outcome for e in p.trace):
+        mod = ("binop", "Mod", n, stride)
+
+        def is_multiple(e):
+            """the decision says n % stride == 0: as ==/!= 0 (either operand order) or as the truth value of n % stride"""
+            t = e.test
+            if t == mod:
+                return not e.outcome
+            if t[0] == "cmp" and t[1] in ("Eq", "NotEq") and {t[2], t[3]} == {mod, ("const", 0)}:
+                return e.outcome == (t[1] == "Eq")
+            return False
+        if not any(e.k == "decision" and is_multiple(e) for e in p.trace):
             return False
         # density = ceil(window / stride) in the enclosing factory (shape check)
         return _density_is_ceil(self.site, D, stride)
